@@ -58,6 +58,29 @@ def peJ (A : PE) : Json :=
   Json.mkObj [("arg_tys", jList tyJ A.argTys), ("nodes", jList nodeJ A.nodes), ("yield", srcJ A.yld),
     ("switches", jList swJ A.switches)]
 
+def nodeOf (j : Json) : Except String Node := do
+  -- "ops" entries are [name, wiring]; the model assumes positional wiring (F09): anything else is rejected
+  let nOps ← (← arr (← field j "operands")).toList.mapM srcOf
+  let ops ← listOf (fun o => do
+    match (← arr o).toList with
+    | [n, w] =>
+      let wl ← listOf int w
+      if wl != (List.range nOps.length).map Int.ofNat then throw "non-positional region wiring: outside the model"
+      str n
+    | _ => throw "bad op entry") (← field j "ops")
+  return { id := ← str (← field j "id"), ops := ops, operands := nOps, sw := ← nat (← field j "sw"),
+           resTy := ← tyOf (← field j "res_ty") }
+
+def swOf (j : Json) : Except String SwUse := do
+  match (← arr j).toList with
+  | [t] => if (← str t) == "m" then return .mux else throw "bad switch"
+  | [t, x] => if (← str t) == "c" then return .choose (← nat x) else throw "bad switch"
+  | _ => throw "bad switch"
+
+def peOf (j : Json) : Except String PE := do
+  return { argTys := ← listOf tyOf (← field j "arg_tys"), nodes := ← listOf nodeOf (← field j "nodes"),
+           yld := ← srcOf (← field j "yield"), switches := ← listOf swOf (← field j "switches") }
+
 def raisedJ (e : Err) : Json := Json.mkObj [("raised", Json.str e.name)]
 
 partial def termJ : HTerm → Json
@@ -75,31 +98,95 @@ def decJ (A K : PE) : Json :=
 
 /-- `t` = number of kernels merged so far. `hyp_ok`: the hypotheses of the C20 theorems (`wf` of the merged
 graph, `uniqueIds` and `covers` for every merged kernel) evaluated on the model's graphs, which the
-correspondence check has just compared with the real ones. -/
-def stepJ (A : PE) (ks : List PE) (t : Nat) : Json :=
-  let hyp := A.wf && (ks.take t).all (fun k => uniqueIds k.nodes && covers A k)
+correspondence check has just compared with the real ones. Since the deepening round only `kwf` of the
+kernels is a hypothesis of `C20_history`; `wf` / `covers` of the merged graph are theorems (`reachable_inv`)
+and are kept here as a cross-check of the model. -/
+def stepJ (A : PE) (ks : List PE) (merged : List Nat) : Json :=
+  let hyp := A.wf && swTargetsOk A && (merged.filterMap (ks[·]?)).all (fun k => k.kwf && covers A k)
+  let self := match decode A A with
+    | .error e => raisedJ e
+    | .ok sw => Json.mkObj [("sw", jList jNat sw)]
   Json.mkObj [("pe", peJ A), ("ssa_ok", Json.bool A.ssaOk), ("hyp_ok", Json.bool hyp),
-    ("true", jNat A.trueSwitches), ("dec", jList (decJ A) ks)]
+    ("true", jNat A.trueSwitches), ("dec", jList (decJ A) ks), ("self", self)]
 
-def steps (ks : List PE) : PE → List PE → Nat → List Json
-  | A, [], t => [stepJ A ks t]
-  | A, g :: r, t => stepJ A ks t :: (match combine A g with
+/-- the kernels of one group merged into one graph (the first one is the base) -/
+def groupGraph (ks : List PE) (idx : List Nat) : Except Err PE :=
+  match idx.filterMap (ks[·]?) with
+  | [] => .error .malformed
+  | k :: r => mergeAll k r
+
+def steps (ks : List PE) : PE → List (List Nat) → List Nat → List Json
+  | A, [], m => [stepJ A ks m]
+  | A, g :: r, m => stepJ A ks m :: (match groupGraph ks g with
     | .error e => [raisedJ e]
-    | .ok A' => steps ks A' r (t + 1))
+    | .ok G => match combine A G with
+      | .error e => [raisedJ e]
+      | .ok A' => steps ks A' r (m ++ g))
 
-/-- args: {"bodies": [body]} -> {"enc": [pe | raised], "kterm": [term|null], "steps": [step | raised]} -/
+/-- args: {"bodies": [body], "groups"?: [[index]]} -> {"enc": [pe | raised], "kterm": [term|null],
+"steps": [step | raised]}. A group of several kernels is first merged into a graph of its own, which is then
+merged as a whole (`append_to_abstract_graph` with a multi-operation, mux-free `graph`); default: singletons. -/
 def history : Handler := fun j => do
   let bodies ← listOf bodyOf (← field j "bodies")
+  let groups ← match j.getObjVal? "groups" with
+    | .ok g => listOf (listOf nat) g
+    | .error _ => pure ((List.range bodies.length).map fun i => [i])
   let encs := bodies.map encode
   let encJ := jList (fun e => match e with | .ok p => peJ p | .error e => raisedJ e) encs
   let ks := encs.filterMap fun e => match e with | .ok p => some p | .error _ => none
   let kterm := jList (fun (k : PE) => jOpt termJ (freeEval k (fun _ => 0))) ks
+  -- the body evaluated directly (reference semantics), block argument i named after its data port
+  let bterm := jList (fun (b : KBody) => jOpt termJ
+    (b.eval HTerm.app ((List.range b.argTys.length).map fun i => HTerm.inp (b.renum i)))) bodies
   if ks.length ≠ encs.length then
-    return Json.mkObj [("enc", encJ), ("kterm", kterm), ("steps", Json.arr #[])]
-  match ks with
-  | [] => return Json.mkObj [("enc", encJ), ("kterm", kterm), ("steps", Json.arr #[])]
-  | k0 :: r => return Json.mkObj [("enc", encJ), ("kterm", kterm), ("steps", Json.arr (steps ks k0 r 1).toArray)]
+    return Json.mkObj [("enc", encJ), ("kterm", kterm), ("bterm", bterm), ("steps", Json.arr #[])]
+  match groups with
+  | [] => return Json.mkObj [("enc", encJ), ("kterm", kterm), ("bterm", bterm), ("steps", Json.arr #[])]
+  | g0 :: r =>
+    match groupGraph ks g0 with
+    | .error e => return Json.mkObj [("enc", encJ), ("kterm", kterm), ("bterm", bterm), ("steps", Json.arr #[raisedJ e])]
+    | .ok A0 => return Json.mkObj [("enc", encJ), ("kterm", kterm), ("bterm", bterm), ("steps", Json.arr (steps ks A0 r g0).toArray)]
 
-def handlers : List (String × Handler) := [("c20.history", history)]
+/-- args: {"ops": [[name, [ty], ty]]} -> {"raised"} | {"pe", "true", "terms": [term|null per switch value]} -/
+def fromOps : Handler := fun j => do
+  let ops ← listOf (fun o => do
+    match (← arr o).toList with
+    | [n, tys, r] => return ((← str n), (← listOf tyOf tys), (← tyOf r))
+    | _ => throw "bad op") (← field j "ops")
+  match peFromOperations ops with
+  | .error e => return raisedJ e
+  | .ok A =>
+    return Json.mkObj [("pe", peJ A), ("true", jNat A.trueSwitches), ("concrete", Json.bool A.isConcrete),
+      ("terms", jList (fun i => jOpt termJ (freeEval A (fun _ => i))) (List.range ops.length))]
+
+def stepG (A : PE) (gs : List PE) : Json :=
+  let self := match decode A A with
+    | .error e => raisedJ e
+    | .ok sw => Json.mkObj [("sw", jList jNat sw)]
+  Json.mkObj [("pe", peJ A), ("ssa_ok", Json.bool A.ssaOk), ("true", jNat A.trueSwitches),
+    ("dec", jList (decJ A) gs), ("self", self)]
+
+def stepsG (gs : List PE) : PE → List Nat → List Json
+  | A, [] => [stepG A gs]
+  | A, i :: r => stepG A gs :: (match gs[i]? with
+    | none => [raisedJ .malformed]
+    | some G => match combine A G with
+      | .error e => [raisedJ e]
+      | .ok A' => stepsG gs A' r)
+
+/-- args: {"graphs": [pe], "plan": [index]}: graphs given directly (hand-built with the dialect's constructors,
+e.g. the inputs of the upstream tests); `plan[0]` is the element, the others are appended in order; after every
+step every graph is decoded. -> {"steps": [step | raised]} -/
+def graphs : Handler := fun j => do
+  let gs ← listOf peOf (← field j "graphs")
+  let plan ← listOf nat (← field j "plan")
+  match plan with
+  | [] => return Json.mkObj [("steps", Json.arr #[])]
+  | i0 :: r => match gs[i0]? with
+    | none => throw "plan index out of range"
+    | some A0 => return Json.mkObj [("steps", Json.arr (stepsG gs A0 r).toArray)]
+
+def handlers : List (String × Handler) :=
+  [("c20.history", history), ("c20.fromops", fromOps), ("c20.graphs", graphs)]
 
 end SnaxVerif.Drv.C20
